@@ -30,4 +30,8 @@ LEVEL = {
                     'the code is compared after every operation (file bytes vs last-sync snapshot, second handle fetches).',
             'design_ref': '5 C05',
             'note': _TB + 'Process death is modelled as dropping the handle with an intact kernel; power loss / fsync durability is outside the model.'},
+    'C14': {'text': 'Theorems for every encodable object and every remainder: decode(encode x ++ r) = (x, r); for every proper prefix the decoder '
+                    'answers Want n with |prefix| < n <= |message| (scalars, point, point list, series, header); concatenated messages decode in sequence.',
+            'design_ref': '5 C14',
+            'note': _TB + 'Bytes are modelled as integers 0..255 and floats as their bit patterns.'},
 }
